@@ -128,7 +128,15 @@ theorem decTileBounds_eq (W H TW TH idx : Int) (hW : 1 ≤ W) (hH : 1 ≤ H) (hT
   have c2 : ¬ idx ≥ (W + TW - 1) / TW * ((H + TH - 1) / TH) := by omega
   have c3 : ¬ idx % ((W + TW - 1) / TW) * TW < 0 := by omega
   have c4 : ¬ idx / ((W + TW - 1) / TW) * TH < 0 := by omega
-  simp only [c1, c2, c3, c4, decide_false, Bool.or_self, Bool.false_eq_true, if_false, gt_iff_lt, decide_eq_true_eq]
+  -- the clamps are written either as if-chains or with the builtin max/min (both forms of the source close)
+  first
+    | (simp only [c1, c2, c3, c4, decide_false, Bool.or_self, Bool.false_eq_true, if_false, gt_iff_lt, decide_eq_true_eq]; done)
+    | (simp only [c1, c2, c3, c4, decide_false, Bool.or_self, Bool.false_eq_true, if_false, gt_iff_lt, decide_eq_true_eq,
+         Int.max_def, Int.min_def]
+       generalize idx % ((W + TW - 1) / TW) * TW = X at *
+       generalize idx / ((W + TW - 1) / TW) * TH = Y at *
+       repeat' split
+       all_goals (first | omega | (simp only [Prod.mk.injEq, and_true, true_and]; first | done | omega)))
 
 end J2k
 
